@@ -14,3 +14,7 @@ const HooksEnabled = false
 func (c *Cluster) installBackOffClock(r reconcile.Reconciler) {}
 
 func (c *Cluster) advanceBackOffClock(d time.Duration) {}
+
+func fnMetrics(v *FnVector) map[string]interface{} {
+	return map[string]interface{}{"panic": false, "values": map[string]int{}, "labelKeys": []string{}, "labelValues": []string{}, "nohooks": true}
+}
